@@ -89,9 +89,27 @@ type WPtrs struct {
 	Label *string
 }
 
+// seeded change C06-n: with comment generation the no-comment list (id, created_at, …) is matched against the full column
+// name: inside a prefixed embedded struct `audit_id` / `audit_created_at` do get a generated comment
+type WGenCmtInner struct {
+	ID        int
+	CreatedAt string
+	Note      string
+}
+
+type WGenCmt struct {
+	ID        int `sql:"primary_key"`
+	CreatedAt string
+	Audit     WGenCmtInner `sql:"embedded_prefix:audit_"`
+}
+
 var my = structCfg{dialect: "mysql", tagKey: "sql"}
+var myCmt = structCfg{dialect: "mysql", tagKey: "sql", comment: true}
 
 var witnessCases = []structCase{
+	{id: "wst-generated-comments-in-prefixed-embedded", cfg: myCmt, obj: WGenCmt{},
+		decl:   `(decl "WGenCmt" "" ((field "ID" int "int" "primary_key") (field "CreatedAt" string "string" "") (field "Audit" (struct ((field "ID" int "int" "") (field "CreatedAt" string "string" "") (field "Note" string "string" ""))) "WGenCmtInner" "embedded_prefix:audit_")))`,
+		expect: `(expect "w_gen_cmt" ((col "id" "INT" ("pk") true) (col "created_at" "TEXT" () false) (col "audit_id" "INT" ("comment:audit id") false) (col "audit_created_at" "TEXT" ("comment:audit created at") false) (col "audit_note" "TEXT" ("comment:audit note") false)) () () ())`},
 	{id: "wst-non-nil-pointers", cfg: my, obj: WPtrs{Flag: ptrBool(), Tiny: ptrInt8(), Small: ptrInt16(), Num: ptrInt(), Big: ptrInt64(), Ratio: ptrFloat32(), Rate: ptrFloat64(), Label: ptrString()},
 		decl: `(decl "WPtrs" "" ((field "ID" int "int" "primary_key") (field "Flag" (ptrTo bool) "*bool" "") (field "Tiny" (ptrTo int8) "*int8" "") (field "Small" (ptrTo int16) "*int16" "") (field "Num" (ptrTo int) "*int" "") (field "Big" (ptrTo int64) "*int64" "") (field "Ratio" (ptrTo float32) "*float32" "") (field "Rate" (ptrTo float64) "*float64" "") (field "Label" (ptrTo string) "*string" "")))`,
 		expect: `(expect "w_ptrs" ((col "id" "INT" ("pk") true) (col "flag" "BOOLEAN" ("null") false) (col "tiny" "TINYINT" ("null") false) (col "small" "SMALLINT" ("null") false) (col "num" "INT" ("null") false) (col "big" "BIGINT" ("null") false) (col "ratio" "FLOAT" ("null") false) (col "rate" "DOUBLE" ("null") false) (col "label" "TEXT" ("null") false)) () () ())`},
